@@ -187,9 +187,13 @@ def d1_obligations(mod, out):
             if isinstance(d, (ast.List, ast.Dict, ast.Set, ast.ListComp, ast.DictComp, ast.SetComp)) or (
                     isinstance(d, ast.Call) and unparse(d.func) not in IMMUTABLE_CALLS):
                 problems.append({"line": d.lineno, "what": f"mutable default argument {unparse(d)[:40]}"})
+        # a DIRECT write (store to a module name, subscript/attribute store, mutating method call, `global`, mutable default argument) is module
+        # state by itself: the frame is broken, whatever the values - a behavioural failure.  A module object that merely escapes (passed
+        # on, returned, unknown method) leaves the frame undecided: structural.
+        direct = [p_ for p_ in problems if str(p_["what"]).startswith(("store to module name", "subscript store", "attribute store", "mutating call", "global ", "mutable default"))]
         out.append({"name": f"C10/D1-frame/{mod.rel.split('/')[-1]}:{qual}", "status": "discharged" if not problems else "sat",
                     "backend": "static", "where": "the function neither writes a module-level binding nor mutates a module-level mutable object",
-                    "time": 0.0, "replay": {"problems": problems[:6]}, "structural": True})
+                    "time": 0.0, "replay": {"problems": (direct or problems)[:6]}, "structural": not direct})
 
 
 def classify_use(n, p, pm):
@@ -440,6 +444,8 @@ CORPUS = [
     "from Reduino.Communication import SerialMonitor\nmon = SerialMonitor(9600)\nxs = [1, 2, 3]\nname = 'abc'\nk = 1\nmon.write(len(name) + len(xs) + xs[k])\nfor i in range(1, 3):\n    mon.write(i)\n",
     "from Reduino.Communication import SerialMonitor\nmon = SerialMonitor(9600)\nys = [i * 2 for i in range(3)]\nys.append(4)\nmon.write(len(ys))\nys = 5\n",
     "from Reduino.Communication import SerialMonitor\nmon = SerialMonitor(9600)\nzs = [1.5, 2.5]\nmon.write(zs[0])\ndef g(*args):\n    return 1\nmon.write(g(1))\nfor i in range(2, 9, 3):\n    pass\n",
+    # a helper called (with a non-int argument) above its definition: the pending signature is specialised when the def is reached
+    "from Reduino.Communication import SerialMonitor\nmon = SerialMonitor(9600)\ndef report():\n    mon.write(dim(0.25))\n    mon.write(tag('x'))\ndef dim(v):\n    return v * 2\ndef tag(s):\n    return s + '!'\nreport()\n",
     # chained comparisons whose middle operand is a call / another chain (emitted through temporaries)
     "from Reduino.Sensors import Potentiometer\nfrom Reduino.Communication import SerialMonitor\nmon = SerialMonitor(9600)\npot = Potentiometer('A0')\ny = 3\nz = 9\nwhile True:\n    if 100 < pot.read() < 900:\n        mon.write(1)\n"
     "    ok = 1 <= abs(y) <= 4 < z\n    deep = 0 < (0 < (1 < y < 5) < 2) < 3\n    mon.write(ok)\n",
@@ -511,10 +517,13 @@ def replay_differ(tier, seed, out):
     singles = [[i] for i in range(len(corpus))] + [[i, i] for i in (6, 7, 8) if i < n]
     roles = list(range(n, len(corpus)))
     histories.append([k for a in roles for b in roles if a != b for k in (a, b)])      # every ordered pair of roles of one identifier
-    for hs in seeds:
-        for hi, order in enumerate((singles + histories) if hs == 0 else histories if hs < 3 else histories[:1]):
+    runs_plan = [(hs, order, ()) for hs in seeds for order in ((singles + histories) if hs == 0 else histories if hs < 3 else histories[:1])]
+    # the interpreter's optimisation level is part of "the process", not of the text: -O / -OO (asserts and docstrings compiled away)
+    runs_plan += [(0, fresh, ("-O",)), (1, fresh, ("-OO",)), (0, list(reversed(fresh)), ("-OO",))]
+    for hs, order, flags in runs_plan:
+        if True:
             env = dict(os.environ, PYTHONHASHSEED=str(hs))
-            r = subprocess.run(["/venv/bin/python", "-c", REPLAY_PROG, src, json.dumps(corpus), json.dumps(order)],
+            r = subprocess.run(["/venv/bin/python", *flags, "-c", REPLAY_PROG, src, json.dumps(corpus), json.dumps(order)],
                                capture_output=True, text=True, env=env, timeout=300)
             runs += 1
             if r.returncode != 0:
